@@ -154,6 +154,8 @@ def page_classes():
     # a request WITH A BODY (--post-data) answered with a redirect: 307 / 308 replay the request, 302 turns it into a GET
     for code in (b'302', b'307', b'308'):
         c['rd_%s_post' % code.decode()] = _p(redirect(b'http://a.test/p3', code), argv=['--post-data', 'x=1'])
+    # through an HTTP proxy that drops its idle connections (see errorflow_exec: ProxyServer)
+    c['px_idle_close'] = _p(resp(close_hdr=False), argv=['--http-proxy', 'proxy.test:3128', '--wait', '1'])
     # the download directory (-P) does not exist yet when the first answer - a redirect, nothing to save - arrives
     c['rd_new_directory'] = _p(redirect(b'http://a.test/p3'), argv=['-P', 'new/dir'])
     c['ok_new_directory'] = _p(resp(), argv=['-P', 'new/dir2', '--delete-after'])
